@@ -12,6 +12,7 @@ import (
 	"os"
 	"path/filepath"
 	"sort"
+	"strconv"
 	"strings"
 	"time"
 
@@ -360,7 +361,11 @@ func (c *Ctx) Finish() int {
 	for k, v := range c.Extra {
 		cov[k] = v
 	}
-	ev := evidence{PropertyID: c.Prop, Tier: c.Tier, Seed: 0, Level: "other", Coverage: cov, Assumptions: c.Assume,
+	seed := 0
+	if v, err := strconv.Atoi(os.Getenv("VERIF_SEED")); err == nil {
+		seed = v // recorded only: the analysis makes no random choices
+	}
+	ev := evidence{PropertyID: c.Prop, Tier: c.Tier, Seed: seed, Level: "other", Coverage: cov, Assumptions: c.Assume,
 		WallS: time.Since(c.start).Seconds(), Violations: len(bad)}
 	if ev.Assumptions == nil {
 		ev.Assumptions = []string{}
